@@ -38,6 +38,14 @@ def setup_symbolic():
         def tobytes(self, *a, **k):  # the real code hands .tobytes() to a C translate call: keep the indices themselves
             return [x for x in self]
 
+        def astype(self, dtype, *a, **k):
+            # translate() casts the codon indices to one byte each before tobytes(); on this object array the cast would realise every
+            # symbolic index (enumeration of all base combinations). The indices stay symbolic; an index outside 0..65 fails the table
+            # lookup of the harness, and the width of the real integer arrays is the translate_index_width obligation.
+            if numpy.dtype(dtype).kind in "ui":
+                return self
+            return numpy.ndarray.astype(self, dtype, *a, **k)
+
     def zeros(shape, dtype=None):
         return numpy.empty(shape, dtype=object).view(ObjArr)
 
@@ -384,7 +392,10 @@ def mk_translation_api(code_id, api, style, include_stop=False):
     def call(seq):
         import cogent3
 
-        kw = {"include_stop": True} if include_stop else {}
+        # include_stop is paired with trim_stop=False: with trim_stop left at its default (True) the two requests conflict for a terminal
+        # stop and the APIs resolve it differently (old style keeps it, new-style Sequence / SequenceCollection trim it, as their
+        # docstrings say the flags are independent) -- that combination is not claimed
+        kw = {"include_stop": True, "trim_stop": False} if include_stop else {}
         if api == "seq":
             return str(cogent3.make_seq(seq, name="s1", moltype="dna", new_type=new_type).get_translation(gc=code_id, **kw))
         if api == "coll":
@@ -444,7 +455,7 @@ BOUNDS = {
     "quick": ["all 27 NCBI codes: every codon over {T,C,A,G,-,?} (finite domain, symbolic codon)", "frames: sequences of 0..9 symbolic canonical bases (length is a shard key), start in {0,1,2}, both strands, codes 1 and 2",
               "k-mer kernel: <= 6 symbolic monomer codes over {T,C,A,G,-,?}", "index width: one representative sequence length per dtype class of the index array (1, 256, 65536 codons)", "complement / ambiguity tables: every IUPAC symbol of DNA and RNA, old and new moltypes"],
 }
-BOUNDS["quick"].append("get_translation of Sequence / SequenceCollection / Alignment (old and new style): 'ATGCCA' + one symbolic final codon over {T,C,A,G}, codes 2 and 6 (all 27 in thorough); include_stop for code 2")
+BOUNDS["quick"].append("get_translation of Sequence / SequenceCollection / Alignment (old and new style): 'ATGCCA' + one symbolic final codon over {T,C,A,G}, code 2 through all six entry points, code 6 through the collections (all 27 codes x 6 entry points in thorough); include_stop + trim_stop=False for code 2")
 BOUNDS["thorough"] = ["as quick, frames for codes 1, 2, 4, 11; get_translation entry points for all 27 codes"]
 ASSUMPTIONS = [
     "the byte-level translate call (bytes.translate, C) is replaced by the 66-entry table extracted this run from the real converter; the k-mer kernel is run through its .py_func (numba compilation trusted); numpy.zeros in new_alphabet rebound to an object-array allocator",
@@ -481,8 +492,10 @@ def obligations(tier):
     for cid in ([c[1] for c in G.code_mapping] if T else (2, 6)):
         for style in ("old", "new"):
             for api in ("seq", "coll", "aln"):
+                if not T and cid == 6 and api != "coll":
+                    continue  # quick: the second code only through the collection entry point
                 obs.append(Ob(f"translation_api/{style}/{api}/code{cid}", __name__, "mk_translation_api", {"code_id": cid, "api": api, "style": style}, timeout=1800,
-                              twins=("end", "stop") if cid == 2 else ("end",), group="api"))
+                              twins=("end", "stop") if (cid == 2 and api == "seq") else ("end",), group="api"))
     for style in ("old", "new"):
         for api in (("seq", "coll", "aln") if T else ("coll",)):
             obs.append(Ob(f"translation_api/{style}/{api}/code2/include_stop", __name__, "mk_translation_api", {"code_id": 2, "api": api, "style": style, "include_stop": True}, timeout=1800, twins=("end",), group="api"))
